@@ -8,18 +8,7 @@ type Env = Map<int, f32>;
 type FE = spec_fn(Env, Seq<f32>) -> Env;
 type FO = spec_fn(Map<int, f32>, Env, Seq<f32>) -> Map<int, f32>;
 
-spec fn reg_step(op: RegOp, st: St, inp: Seq<f32>) -> St {
-    match op {
-        RegOp::Load(r, m) => St { slots: st.slots.insert(r as int, st.slots[m as int]), outs: st.outs },
-        RegOp::Store(r, m) => St { slots: st.slots.insert(m as int, st.slots[r as int]), outs: st.outs },
-        RegOp::Input(r, i) => St { slots: st.slots.insert(r as int, inp[i as int]), outs: st.outs },
-        RegOp::Output(r, i) => St { slots: st.slots, outs: st.outs.insert(i as int, st.slots[r as int]) },
-        RegOp::CopyImm(r, c) => St { slots: st.slots.insert(r as int, c), outs: st.outs },
-        RegOp::NegReg(o, a) => St { slots: st.slots.insert(o as int, un_sem(1, st.slots[a as int])), outs: st.outs },
-        RegOp::AddRegReg(o, a, b) => St { slots: st.slots.insert(o as int, bin_sem(1, st.slots[a as int], st.slots[b as int])), outs: st.outs },
-        _ => st,   // prototype: remaining opcodes generated mechanically in the real spec
-    }
-}
+// (reg_step / ssa_fe / ssa_fo are generated: gen_sem.rs)
 /// run ops[lo..hi) from hi-1 down to lo (tapes are stored in reverse evaluation order)
 spec fn reg_run_rev(ops: Seq<RegOp>, lo: int, hi: int, st: St, inp: Seq<f32>) -> St
     decreases hi - lo
